@@ -19,10 +19,12 @@ func runOSProc(n int64, lang int64, seed int64) {
 	rand.Read(buf)
 	mark("CAL-END")
 	emit(Event{"op": "OSCalibration", "bytes": ints(buf)})
-	for k := 0; k < 2; k++ {
+	// a larger request first, then the process's own count twice: storage recycled between calls of
+	// different sizes must not leak into a mnemonic
+	for k, nn := range []int64{24, n, n} {
 		emit(Event{"op": "OSMark", "id": k})
 		mark("BEGIN")
-		recNewMnemonic(n, lang, Event{"default_source": true})
+		recNewMnemonic(nn, lang, Event{"default_source": true})
 		mark("END")
 	}
 	// the pre-swap source is crypto/rand.Reader itself
@@ -36,7 +38,7 @@ func runOSProc(n int64, lang int64, seed int64) {
 	}
 	src.script, src.pos, src.after = nil, 0, "data"
 	swapSource(osRandReader(), "os")
-	emit(Event{"op": "OSMark", "id": 2})
+	emit(Event{"op": "OSMark", "id": 3})
 	mark("BEGIN")
 	recNewMnemonic(n, lang, Event{"default_source": true})
 	mark("END")
